@@ -539,6 +539,44 @@ def scan_helper_state(repo, rel=T, roots=C02_ROOTS):
     return closure, uses
 
 
+_SIZE_WORDS = (".shape", ".size(", ".numel(", "len(", ".ndim", ".dim()")
+_CHUNK_CALLS = ("narrow", "split", "chunk", "tensor_split", "unbind", "index_select", "select", "unfold", "hsplit", "vsplit", "dsplit")
+
+
+def scan_size_branches(repo, rel=T, roots=C02_ROOTS):
+    """-> [(function, kind, text)]: in every function reachable from the C02 operators, control flow that depends on a SIZE
+    (`if` / conditional expression / `while` / `assert`-free tests mentioning shape / size / numel / len / ndim), every loop, and
+    every call that cuts a tensor into pieces (narrow / split / chunk / unbind / select …).  The verified expressions are
+    size-uniform: one formula for all shapes; a threshold or a chunked accumulation is a different algorithm per size class."""
+    closure, _ = scan_helper_state(repo, rel, roots)
+    out = []
+    for f, name in closure:
+        _, defs, _, _ = _module_info(repo, f)
+        fn = defs[name]
+        q = name if f == rel else f"{f}:{name}"
+        for n in ast.walk(fn):
+            if isinstance(n, (ast.If, ast.IfExp, ast.While)):
+                t = ast.unparse(n.test)
+                if any(w in t for w in _SIZE_WORDS):
+                    out.append((q, "size-test", t[:80]))
+            if isinstance(n, (ast.For, ast.AsyncFor, ast.While, ast.ListComp, ast.GeneratorExp, ast.SetComp, ast.DictComp)):
+                out.append((q, "loop", ast.unparse(n.iter if hasattr(n, "iter") else n.test if isinstance(n, ast.While) else n.generators[0].iter)[:80]))
+            if isinstance(n, ast.Call):
+                cn = n.func.attr if isinstance(n.func, ast.Attribute) else n.func.id if isinstance(n.func, ast.Name) else ""
+                if cn in _CHUNK_CALLS:
+                    out.append((q, "chunking-call", ast.unparse(n)[:80]))
+    return sorted(set(out))
+
+
+def _size_branch_text():
+    from ..gen import REPO
+
+    rows = scan_size_branches(REPO)
+    body = ",\n".join(f"  ({_lean_str(a)}, {_lean_str(b)}, {_lean_str(c)})" for a, b, c in rows)
+    return (f"def helper_size_branches : List (String × String × String) := [\n{body}]\n",
+            f"translated ({len(rows)} size-dependent branches / loops / chunking calls)")
+
+
 def _helper_state_text():
     from ..gen import REPO
 
@@ -601,6 +639,13 @@ def _c02_extra():
         out.append(f"/-- SKIPPED ({e}) -/\ndef helper_closure : List String := [{roots}]\n\n"
                    "def helper_state_uses : List (String × String × String) := []\n")
         status["helper_state_uses"] = f"skipped: {e}"
+    try:
+        text, st = _size_branch_text()
+        out.append("/-- translated: size-dependent control flow, loops and chunking calls in the functions reachable from the C02 operators -/\n" + text)
+        status["helper_size_branches"] = st
+    except Untranslatable as e:
+        out.append(f"/-- SKIPPED ({e}) -/\ndef helper_size_branches : List (String × String × String) := []\n")
+        status["helper_size_branches"] = f"skipped: {e}"
     for fname in ("complex_multiplication", "complex_division"):
         emit(f"{fname}_cat", lambda fname=fname: f"def {fname}_cat : List String := {_cat_order(find_function(tree, fname))}\n",
              f'def {fname}_cat : List String := ["real_part", "imaginary_part"]\n')
